@@ -12,6 +12,7 @@ inductive Ty where
   | bool
   | u32                      -- only behind `maybe_stringified`
   | alg                      -- `iana::Algorithm`, only behind `i64_to_iana`
+  | i64                      -- a plain `i64` (a JSON integer token)
   | enum (name : String)     -- a unit-variant enum read from a JSON string
   | struct (name : String)
   | opt (t : Ty)
@@ -37,6 +38,8 @@ structure Field where
   /-- `#[serde(default)]` -/
   dflt : Bool
   wrap : Wrap
+  /-- `#[serde(skip_serializing_if = "Option::is_none")]` -/
+  skipNone : Bool := false
   deriving Repr, Inhabited, DecidableEq
 
 structure StructDef where
